@@ -149,9 +149,11 @@ type Exec struct {
 	// C16 monitors enabled
 	Rule bool
 	// statistics for the non-triviality rule
-	mutOK   int
-	findHit bool
-	bigList bool
+	mutOK int
+	// the previous rule check found a basic directory above the rule
+	aboveBefore bool
+	findHit     bool
+	bigList     bool
 }
 
 func mtimeOf(sec int64, nsec int) time.Time {
@@ -378,6 +380,7 @@ func (e *Exec) step(f []string) {
 			e.dserv.Add(e.ctx, Pool[i].Node)
 		}
 		e.oracle = map[string]string{}
+		e.aboveBefore = false
 		d, err := e.cfg.build(e.dserv)
 		if err != nil {
 			e.d = nil
@@ -420,6 +423,8 @@ func (e *Exec) step(f []string) {
 			switch {
 			case r == "maxlinks" && kb == "hamt":
 				o.Fail("hamt-switch-maxlinks", "AddChild(%q) on a HAMT directory failed with maxLinks reached (aborted HAMT->basic conversion)", name)
+			case r == "maxlinks" && kb == "basic" && !existed && !(before.maxLinks > 0 && len(e.oracle)+1 > before.maxLinks):
+				o.Fail("add-refused-below-limit", "AddChild(%q) refused with maxLinks reached: %d entries, limit %d", name, len(e.oracle), before.maxLinks)
 			case !(r == "maxlinks" && kb == "basic" && !existed) && r != "toodeep":
 				o.Fail("add-error", "AddChild(%q) failed: %s", name, r)
 			}
@@ -531,6 +536,7 @@ func (e *Exec) step(f []string) {
 			o.Emit("%s", errTok(err))
 			return
 		}
+		e.checkDigitPaths(nd, nil)
 		o.Emit("%s", DumpDag(e.ctx, e.dserv, nd))
 	case "reload":
 		if !e.need() {
@@ -722,7 +728,12 @@ func (e *Exec) after(op, kindBefore string, before settings) {
 			want = true
 		}
 	}
-	if want && kind == "basic" {
+	wasAbove := e.aboveBefore
+	e.aboveBefore = want && kind == "basic"
+	if want && kind == "basic" && kindBefore == "basic" && !wasAbove {
+		// a basic directory that was within the rule grew past it without being sharded
+		o.Fail("rule-upgrade-missed", "%s: still basic although the rule now says sharded (size %d thr %d count %d maxlinks %d mode %d)", op, e.ruleSize(mode), thr, len(e.oracle), ml, mode)
+	} else if want && kind == "basic" {
 		sig := "rule-basic-above"
 		// a basic directory at most one index prefix (+ varint steps) over the threshold: the stored-name surplus
 		fan := e.d.GetMaxHAMTFanout()
@@ -734,7 +745,9 @@ func (e *Exec) after(op, kindBefore string, before settings) {
 		}
 		o.Fail(sig, "%s: basic although the rule says sharded (size %d thr %d count %d maxlinks %d mode %d)", op, e.ruleSize(mode), thr, len(e.oracle), ml, mode)
 	}
-	if !want && kind == "hamt" && thr != 0 {
+	if !want && kind == "hamt" && thr != 0 && kindBefore == "basic" {
+		o.Fail("rule-upgrade-early", "%s: sharded by this operation although the rule says basic (size %d thr %d count %d maxlinks %d mode %d)", op, e.ruleSize(mode), thr, len(e.oracle), ml, mode)
+	} else if !want && kind == "hamt" && thr != 0 {
 		o.Fail("rule-hamt-below", "%s: sharded although the rule says basic (size %d thr %d count %d maxlinks %d mode %d)", op, e.ruleSize(mode), thr, len(e.oracle), ml, mode)
 	}
 }
@@ -889,3 +902,64 @@ func dumpDag(ctx context.Context, dserv ipld.DAGService, nd ipld.Node, sb *strin
 }
 
 var _ = binary.BigEndian
+
+// checkDigitPaths is the monitor of the bit-extraction clause, evaluated directly on what was
+// serialised: every entry of a HAMT sits under the slot indices obtained by splitting the
+// big-endian bit string of its hash into log2(fanout)-bit groups.
+func (e *Exec) checkDigitPaths(nd ipld.Node, path []int) {
+	pn, ok := nd.(*mdag.ProtoNode)
+	if !ok {
+		return
+	}
+	fsn, err := ft.FSNodeFromBytes(pn.Data())
+	if err != nil || fsn.Type() != ft.THAMTShard {
+		return
+	}
+	fan := int(fsn.Fanout())
+	lg := 0
+	for 1<<uint(lg) < fan {
+		lg++
+	}
+	pad := len(fmt.Sprintf("%X", fan-1))
+	for _, l := range pn.Links() {
+		if len(l.Name) < pad {
+			continue
+		}
+		idx, perr := strconv.ParseUint(l.Name[:pad], 16, 32)
+		if perr != nil {
+			e.o.Fail("digit-path", "link name %q has no hex index prefix", l.Name)
+			continue
+		}
+		p := append(append([]int(nil), path...), int(idx))
+		if len(l.Name) == pad {
+			if ch, err := l.GetNode(e.ctx, e.dserv); err == nil {
+				e.checkDigitPaths(ch, p)
+			}
+			continue
+		}
+		name := l.Name[pad:]
+		var hv []byte
+		if e.table != nil {
+			hv = e.table[name]
+		} else {
+			hv = Murmur(name)
+		}
+		// big-endian bit string split into lg-bit groups
+		var acc uint64
+		for _, b := range hv {
+			acc = acc<<8 | uint64(b)
+		}
+		nbits := len(hv) * 8
+		for lvl, want := range p {
+			if (lvl+1)*lg > nbits {
+				e.o.Fail("digit-path", "entry %q stored deeper than its hash has digits", name)
+				break
+			}
+			d := int(acc >> uint(nbits-(lvl+1)*lg) & (1<<uint(lg) - 1))
+			if d != want {
+				e.o.Fail("digit-path", "entry %q at level %d sits in slot %d, its hash digit is %d", name, lvl, want, d)
+				break
+			}
+		}
+	}
+}
